@@ -192,7 +192,16 @@ def check_case(case, ctx):
         except Exception:      # pylint: disable=broad-except
             break
         if not common.wellformed_raw(r, elems):
-            ctx.count("ill_formed_left_to_C03")
+            # (well-formedness in general is C03's business, under random pivots) -- here the pivots are known: an element
+            # of the dataset that the result lacks, or holds twice, was not placed relative to the pivot of its step
+            ctx.count("ill_formed_results")
+            flat = [e for b in r for e in b]
+            lacking = [e for e in elems if e not in flat]
+            ctx.violation("C11/element-not-placed" + (":coherent" if coherent is not None else ""),
+                          f"pivots {script}: the result {r} lacks {lacking[:4]} / repeats or adds elements: every element "
+                          f"must be placed relative to the pivot of its step" +
+                          (f"; the preferences cohere into {coherent}" if coherent is not None else ""), sub, observed=r,
+                          expected=coherent if coherent is not None else sorted(map(str, elems)))
             break
         results.add(ref.canon(r))
         shapes.add(tuple(a for a, _ in log))
